@@ -187,8 +187,10 @@ CLAIMED["C07"] = dict(
          "coefficient chain of pdd_poly_coeffs_param -> Gen/Formulas.v): the smoothing cubic interpolates values and slopes at both ends; "
          "the delivered fraction is slope*(p-Pmin) (|.| <= 1e-11 |p-Pmin|) at or below Pmin, 1 + 1e-11 (p-Preq) above Preq, the power law "
          "((p-Pmin)/(Preq-Pmin))^e between the two 5 cm bands; it is C0 and C1 at the four knots for every exponent; the matched slope is "
-         "the true derivative of the power law (Coquelicot); it is non-decreasing outside the bands (partial: inside the bands monotonicity "
-         "is only checked per case); and it provably JUMPS when Preq-Pmin < 0.1 m, which includes the default options (known finding). "
+         "the true derivative of the power law (Coquelicot); it is non-decreasing EVERYWHERE, the smoothing bands included, for every parameter set whose "
+         "two cubics lie in the Fritsch-Carlson box (C07_pdd_monotone, via a general monotonicity theorem for cubic_spline proved without calculus: "
+         "Hermite form of the derivative + exactness of Simpson's rule), and coqc proves that premise (fc_box) for every generated parameter "
+         "set; and it provably JUMPS when Preq-Pmin < 0.1 m, which includes the default options (known finding). "
          "Ties decided inside coqc by interval arithmetic: the residual of the real pdd row of every junction (dumped conditional "
          "expression with the parameter values the code computed) equals d - D*pdd_frac(effective Pmin, Preq, exponent) over a sweep of "
          "heads, for global options and per-junction overrides incl. 0; reported (pressure, demand) pairs of PDD runs lie on the curve.",
@@ -303,8 +305,9 @@ CLAIMED["C03"] = dict(
          "curve) are strictly increasing; the constant-power pump law is not (two branches, _refuted theorem -- the root of a defect found and fixed). "
          "BinFile.read's table of unit parameters and its status recoding are regenerated from the source on every run and proved equal to the "
          "quantities EPANET writes (with C17's conversion theorems). Ties decided inside coqc by interval arithmetic: on the results BOTH engines report "
-         "for the same generated model every junction balances and every open pipe / active TCV obeys the model law (so both are approximate solutions "
-         "of the system of the theorem). The statement itself: WNTRSimulator vs EpanetSimulator at every report step over the INP flow units, "
+         "for the same generated model every junction balances and the links obey the C02 rows of their reported status -- on the WNTR report every "
+         "link kind (pipes, head/power pumps, PRV/PSV/FCV/TCV, closed links), on the EPANET report pipes, TCVs and active PRV/PSV -- so both are "
+         "approximate solutions of the system of the theorem. The statement itself: WNTRSimulator vs EpanetSimulator at every report step over the INP flow units, "
          "EPANET(unit a) vs EPANET(unit b), harness-written INP texts run by the toolkit directly vs read_inpfile + WNTRSimulator, Net1-3.",
     ref="DESIGN.md section 5 C03",
     note="Partial: EPANET itself is a binary and is not modelled; the quantitative step (residual below tolerance => distance to the unique solution "
